@@ -133,7 +133,7 @@ impl Property for C04 {
             gen_small_box(src)
         };
         let dev = DevCfg { bbox, caps, disc };
-        let stack = gen_stack(src, &dev.r(), dev_kind, 3, true, 24, false);
+        let stack = gen_stack(src, &dev.r(), dev_kind, 3, true, 24, false, false);
         let sm = crate::model::StackModel::new(dev.r(), dev_kind, &stack);
         let top_kind = sm.top_kind();
         let mut knobs = gen_knobs(src, top_kind.mask(), true);
